@@ -112,6 +112,16 @@ fn render_triple(t: Option<(Language, Option<Script>, Option<Region>)>) -> Strin
     }
 }
 
+/// An identifier without variants rebuilt through the public `from_raw_parts_unchecked` with a present-but-empty
+/// variant list (`Some([])` satisfies the constructor's documented expectation "deduplicated and ordered").
+fn some_empty(li: LanguageIdentifier) -> LanguageIdentifier {
+    if li.variants().len() == 0 {
+        LanguageIdentifier::from_raw_parts_unchecked(li.language, li.script, li.region, Some(Box::new([])))
+    } else {
+        li
+    }
+}
+
 fn answer_inner(line: &str) -> String {
     let mut parts = line.split(' ');
     let op = parts.next().unwrap_or("");
@@ -356,26 +366,57 @@ fn answer_inner(line: &str) -> String {
                 Err(e) => loc_err(&e).to_string(),
             }
         }
-        "match" => {
+        "match" | "matchx" => {
             let x = arg!(0);
             let y = arg!(1);
             let (ra, rb) = (flag(a.get(2).unwrap_or(&"0")), flag(a.get(3).unwrap_or(&"0")));
+            let (ex, ey) = (op == "matchx" && flag(a.get(4).unwrap_or(&"0")), op == "matchx" && flag(a.get(5).unwrap_or(&"0")));
             match (LanguageIdentifier::from_bytes(&x), LanguageIdentifier::from_bytes(&y)) {
-                (Ok(x), Ok(y)) => format!("ok {}", b(x.matches(&y, ra, rb))),
+                (Ok(x), Ok(y)) => {
+                    let x = if ex { some_empty(x) } else { x };
+                    let y = if ey { some_empty(y) } else { y };
+                    format!("ok {}", b(x.matches(&y, ra, rb)))
+                }
                 _ => "err".to_string(),
             }
         }
-        "locmatch" => {
+        "locmatch" | "locmatchx" => {
             let x = arg!(0);
             let y = arg!(1);
             let (ra, rb) = (flag(a.get(2).unwrap_or(&"0")), flag(a.get(3).unwrap_or(&"0")));
+            let (ex, ey) = (op == "locmatchx" && flag(a.get(4).unwrap_or(&"0")), op == "locmatchx" && flag(a.get(5).unwrap_or(&"0")));
             match (Locale::from_bytes(&x), Locale::from_bytes(&y)) {
-                (Ok(x), Ok(y)) => {
+                (Ok(mut x), Ok(mut y)) => {
+                    if ex {
+                        x.id = some_empty(x.id);
+                    }
+                    if ey {
+                        y.id = some_empty(y.id);
+                    }
                     // a LanguageIdentifier matched against a Locale (through AsRef<LanguageIdentifier>)
-                    let li: LanguageIdentifier = x.clone().into();
+                    let li: LanguageIdentifier = x.id.clone();
                     format!("ok {} {}", b(x.matches(&y, ra, rb)), b(li.matches(&y, ra, rb)))
                 }
                 _ => "err".to_string(),
+            }
+        }
+        "convx" => {
+            let v = arg!(0);
+            match LanguageIdentifier::from_bytes(&v) {
+                Ok(li) => {
+                    let li = some_empty(li);
+                    let l2: Locale = li.clone().into();
+                    let ideq = l2.id == li;
+                    let back: LanguageIdentifier = l2.clone().into();
+                    format!(
+                        "ok back={};ee={};str={};ideq={}",
+                        b(back == li),
+                        b(l2.extensions.is_empty()),
+                        esc(l2.to_string().as_bytes()),
+                        b(ideq)
+                    )
+                }
+                Err(e) => li_err(&e).to_string(),
             }
         }
         "langmatch" => {
